@@ -47,6 +47,7 @@ class Steps:
         import wn
         self.n = 0
         self.cap = 100000
+        self.armed = False
         self.orig = {}
         for cls in (wn.Synset, wn.Sense):
             self.orig[cls] = cls.get_related
@@ -57,7 +58,8 @@ class Steps:
 
         def get_related(self_, *a):
             mon.n += 1
-            if mon.n > mon.cap:
+            if mon.armed and mon.n > mon.cap:
+                mon.armed = False
                 raise StepBudget(f'more than {mon.cap} get_related() expansions in one call')
             return f(self_, *a)
         return get_related
@@ -215,6 +217,7 @@ def check_entities(rec, w, view, steps, r, label):
                 want_reach = reachable(view, key, kind, T)
                 budget = (len(want_reach) + 1) * 3 + 5
                 steps.n = 0
+                steps.armed = True
                 got_c = []
                 try:
                     for y in x.closure(*T):
@@ -225,7 +228,9 @@ def check_entities(rec, w, view, steps, r, label):
                             break
                 except StepBudget as exc:
                     rec.violation('closure-runaway', f'{label}: {key}.closure{T}: {exc}')
+                    steps.armed = False
                     continue
+                steps.armed = False
                 rec.event('closure.compared')
                 rec.event('steps.closure', steps.n)
                 d = diff(SetOf(want_reach), got_c)
@@ -241,6 +246,7 @@ def check_entities(rec, w, view, steps, r, label):
                     rec.event('paths.skipped-too-many')
                     continue
                 steps.n = 0
+                steps.armed = True
                 got_p = []
                 bad = False
                 try:
@@ -253,6 +259,7 @@ def check_entities(rec, w, view, steps, r, label):
                 except StepBudget as exc:
                     rec.violation('paths-runaway', f'{label}: {key}.relation_paths{T}: {exc}')
                     bad = True
+                steps.armed = False
                 rec.event('paths.compared')
                 rec.event('steps.paths', steps.n)
                 if bad:
